@@ -127,11 +127,11 @@ func (v hsVariant) render(key string) []byte {
 }
 
 type hsScript struct {
-	variant   hsVariant
-	frames    []wsref.Frame
-	cuts      []int
-	closeAt   bool // close after the first segment
-	eofAfter  bool // after a complete response (and frames) close the connection
+	variant  hsVariant
+	frames   []wsref.Frame
+	cuts     []int
+	closeAt  bool // close after the first segment
+	eofAfter bool // after a complete response (and frames) close the connection
 }
 
 type hsServer struct {
@@ -149,11 +149,11 @@ func newHSServer() *hsServer {
 }
 
 type hsResult struct {
-	req      *http.Request
-	err      string
-	sentAll  bool
-	conn     int
-	wire     []byte
+	req     *http.Request
+	err     string
+	sentAll bool
+	conn    int
+	wire    []byte
 }
 
 func findClientFd(port int, not int) int {
@@ -337,7 +337,13 @@ func c18BodyOpt(x *engine.X, onlyFailing bool) {
 		if prior == 1 {
 			pv = hsVariant{"prior-fail", 400, "", "", [3]int{0, 1, 2}, 0, 0}
 		}
-		pres, perr := doHandshake(x, ioc, ws, srv, hsScript{variant: pv, frames: hsFrames(1), eofAfter: prior == 2}, false)
+		pframes := hsFrames(1)
+		if prior == 2 {
+			// the dropped session ends in the middle of a frame: a frame and a half arrive, the application reads
+			// one frame, the rest stays buffered in the stream when the connection goes away
+			pframes = append(pframes, wsref.Frame{Fin: true, Op: wsref.OpBinary, Payload: []byte("abcde"), Decl: u64p(9)})
+		}
+		pres, perr := doHandshake(x, ioc, ws, srv, hsScript{variant: pv, frames: pframes, eofAfter: prior == 2}, false)
 		if pres.err != "" {
 			x.Inconclusive("prior handshake: " + pres.err)
 		}
@@ -349,8 +355,7 @@ func c18BodyOpt(x *engine.X, onlyFailing bool) {
 			x.Inconclusive(fmt.Sprintf("prior handshake outcome %v", perr))
 		}
 		if prior == 2 {
-			// consume the frame and the EOF so that the stream is terminated, then drop the connection
-			ws.NextFrame()
+			// read the complete frame only; the half frame stays behind in the stream's buffer
 			ws.NextFrame()
 		}
 		ws.CloseNextLayer()
